@@ -395,8 +395,10 @@ func (r *cacheOnWriteReader) Read(p []byte) (int, error) {
 		}
 		r.bytesSeen += int64(n)
 		if r.bytesSeen > r.maxObjectSizeBytes {
-			_ = r.pipeWriter.CloseWithError(errObjectLargerThanCacheThreshold)
-			r.pipeWriter = nil
+			if r.pipeWriter != nil {
+				_ = r.pipeWriter.CloseWithError(errObjectLargerThanCacheThreshold)
+				r.pipeWriter = nil
+			}
 			r.cachePipeActive = false
 		} else if r.pipeWriter != nil {
 			if _, writeErr := r.pipeWriter.Write(p[:n]); writeErr != nil {
